@@ -193,6 +193,8 @@ class C02(vlib.Driver):
             for algo, fam in (("DQN", "image"), ("PPO", "dict"), ("DDPG", "discrete"), ("MADDPG", "image"), ("NeuralUCB", "image"),
                               ("RainbowDQN", "discrete")):
                 cases.append(seeded(algo, fam, False, "partial", 2, rng.randrange(100), 2))
+            # custom encoder selected by alias (EvolvableResNet): its channel / block mutations, then rebuilds
+            cases.append(boundary("DQN", False, 3, family="image", netcfg="resnet"))
         else:
             for algo in evo.ALGOS:
                 for share in ([False, True] if algo in evo.SHARE_CAPABLE else [False]):
@@ -207,6 +209,9 @@ class C02(vlib.Driver):
                         for rep in range(2):
                             cases.append(seeded(algo, fam, share, rng.choice(["partial", "full", "none"]), 5,
                                                 rng.randrange(1000), rng.choice([2, 3, 4])))
+            for algo in evo.RESNET_ALGOS:          # custom ResNet encoder (appended last: earlier draws are unchanged)
+                cases.append(boundary(algo, False, 3, family="image", netcfg="resnet"))
+                cases.append(seeded(algo, "image", False, "resnet", 4, rng.randrange(1000), 3))
         self._precompute(cases)
         return cases
 
